@@ -285,6 +285,38 @@ def gen_case(rnd, kind='build', tmax=10):
     return case
 
 
+def gen_focus_start_fuel(rnd, tmax=10):
+    """portfolio case in which start variables exist ONLY because of the start fuel (no start costs, no minimum
+    runtime), with block prices that make the plant start more than once: the fuel drawn at the transitions is then
+    recomputed from x by `oracle_portfolio`"""
+    for _ in range(200):
+        case = gen_case(rnd, kind='portfolio', tmax=tmax)
+        if 'gas' in case['nodes'] and case['mode'] == 'any':
+            break
+    a = case['args']
+    T = len(case['prices']['m_el'])
+    a.pop('start_costs', None)
+    for k in ('k_sc',):
+        case['prices'].pop(k, None)
+    a['min_runtime'] = rnd.choice([0., 0., 1.]) if case['step_s'] >= case['unit_s'] else 0.
+    if not isinstance(a.get('min_cap'), (int, float)) or a['min_cap'] <= 0:
+        a['min_cap'] = q8(rnd, 0.25, 2)
+    if rnd.random() < 0.7:
+        a['start_fuel'] = q8(rnd, 0.5, 4)
+    elif 'start_fuel' not in a:
+        a['start_fuel'] = q8(rnd, 0.5, 4)
+    a.pop('time_already_running', None)
+    a.pop('last_dispatch', None)
+    a.pop('ramp', None)
+    case['state'] = 'off' if 'time_already_off' in a else 'neither'
+    # blocks of attractive / unattractive power prices
+    blk = rnd.choice([1, 2, 2, 3])
+    off0 = rnd.randint(0, 2 * blk - 1)
+    case['prices']['m_el'] = [(400. if ((t + off0) // blk) % 2 == 0 else -50.) + q8(rnd, 0, 4) for t in range(T)]
+    case['focus'] = 'start_fuel_only'
+    return case
+
+
 def gen_companions(rnd, case, T):
     comp = {}
     for nd, key, lo, hi in (('el', 'm_el', -30, 80), ('heat', 'm_heat', 0, 40), ('gas', 'm_gas', 5, 40)):
@@ -630,7 +662,11 @@ def oracle_spurious_start(case, ir, info):
     T = asset.timegrid.restricted.T
     if T < 2:
         return [], {}
-    on0, st0 = asset.on_idx, asset.start_idx
+    on0, st0 = getattr(asset, 'on_idx', None), getattr(asset, 'start_idx', None)
+    if on0 is None or st0 is None:
+        # the real asset has no start variables where the model expects them: nothing to probe here; the
+        # correspondence and the optimised-portfolio oracle (fuel and start flags recomputed from x) decide
+        return [], {'spurious': 'no start variables in the real asset'}
     viol = []
     if np.any(op.l[st0:st0 + T] != 0) or np.any(op.u[st0:st0 + T] != 1):
         viol.append(V('chp.start_flag', 'bounds of the start variables are not [0, 1]: l = %s, u = %s (initial-state bounds belong to the on variables only)' % (
